@@ -58,6 +58,7 @@ def generate(rng, tier):
                 s.meta[ln] = {"x": a, "cacheable": True}
                 if k2 == 2 and j % 2 == 1:
                     s.meta[ln]["must_hit"] = True
+        s.add("stats CR"); s.add("stats CW"); s.add("stats C0")
         out.append((name, s))
     return out
 
@@ -76,6 +77,12 @@ def judge(script, impl):
         if toks[0] == "newcache":
             last_stats[toks[1]] = [0, 0, 0, 0]
             shadow[toks[1]] = {}
+            continue
+        if toks[0] == "stats":
+            if "derived-mismatch" in line:
+                bad.append((ln, "CacheStats::total / hits / misses disagree with the four counters: " + line))
+            elif line.startswith("stats ") and toks[1] in last_stats and [int(x) for x in line.split()[1:5]] != last_stats[toks[1]]:
+                bad.append((ln, "stats() after the history differs from the counters seen call by call: %s vs %s" % (line, last_stats[toks[1]])))
             continue
         if toks[0] in ("new", "add", "remove", "gen") and line.startswith("gen "):
             if script.meta.get(ln, {}).get("unknown_remove") and gen_of.get(toks[1]) not in (None, int(line.split()[1])):
